@@ -31,6 +31,8 @@ RULE = ('Hypothesis-generated world descriptions: 0-4 processors and 0-5 entitie
         'on return, after enabling on_add then on_world_load once per handler component with the real entity, '
         'world and handle). '
         'In ~9% of the cases the entities are repeated up to 64-260 (big worlds). '
+        ''
+        'Half of the cases run with another key delimiter (ResourceMap.split_char set to a colon or a bar); two resource keys contain a closing brace. '
         'Non-trivial = >= 2 entities and references of >= 2 kinds, or a world handle stored '
         'at depth >= 2 that uses $res/$handle. Distinct = sha1 of canonical JSON.')
 ASSUMPTIONS = [
